@@ -797,8 +797,10 @@ spec("C10", plan=plan_c10,
           "f0..f7) x 11 rules; UTF-16 be/le: every unit, every unit + 1 byte, every first unit x 32 boundary second units (thorough: all "
           "second units for first units d700..e0ff); UTF-32 be/le: every unit to 0x120000, power-of-two neighbourhoods, stride 40009 "
           "(thorough: all 2^32), truncations; uint16: all values x 15 (mask) rules x both endiannesses; uint32: boundary-structured + "
-          "stride 65521 (thorough: all 2^32) x 6 rules; uint64: bit-structured boundary values + seeded random.  Candidates are followed "
-          "in memory by bytes that would complete a truncated unit.  consumed == N iff accepted.  Non-trivial: accepted candidates and "
+          "stride 65521 (thorough: all 2^32) x 6 rules; uint64: bit-structured boundary values + seeded random.  Every family includes equal-bound (not_)range / mask_(not_)range instances.  Candidates are followed "
+          "in memory by bytes that would complete a truncated unit; a sample of all candidates (all uint16 truncations, boundary-"
+          "structured uint32/64, every 61st UTF-8, boundary UTF-16/32) is parsed a second time from a buffer_input whose reader hands "
+          "out one byte per call.  consumed == N iff accepted.  Non-trivial: accepted candidates and "
           "candidates whose first unit is a multi-unit lead / surrogate; distinct by construction (enumeration).",
      assumptions=COMMON_ASSUME + ["masks and set members are template parameters: a finite compile-time family is checked (listed in targets/c10_classes.cpp)",
                                   "char parameters of ascii::range are compared as the platform's (signed) char"])
@@ -998,12 +1000,14 @@ spec("C18", plan=plan_c18,
           "must, limit error caught by try_catch_return_false followed by another guarded rule) x limits N in {1,2,3,5,8} x inputs of "
           "nesting 0..N+3 (balanced, one bracket surplus/missing, trailers); oracle: the same grammar unguarded under a control that "
           "measures the nesting the run needs - within the limit identical result and consumption, beyond it a parse_error with the "
-          "documented message; current_depth() == 0 after success, local failure and exception.  bytes: eight guarded rule kinds (greedy, "
+          "documented message; current_depth() == 0 after success, local failure and exception; the guard attached directly and reached "
+          "through change_action / change_action_and_state (two state kinds) attached to the guarded rule itself.  bytes: eight guarded rule kinds (greedy, "
           "look-ahead, failing, throwing, literal longer than the limit, until, eof-sensitive, optional) under limit_bytes<N> and "
           "check_bytes<N>, N in {0,1,2,3,5}, the guarded rule starting at every offset 0..6 (run-time '#' prefix), all strings to length "
           "6/7 over a 7-letter alphabet plus rapidcheck strings; oracle: the same rule unguarded on the input truncated at start+N (reaching "
           "exactly start+N may also give the documented limit error), never more than N bytes matched, the window hook never sees an "
-          "inspection beyond start+N, the input's end is the real end afterwards in every outcome.  Non-trivial: guarded rule starting at "
+          "inspection beyond start+N, the input's end is the real end afterwards in every outcome; also under a control whose hooks are "
+          "switched off (enable = false) for the guarded rule.  Non-trivial: guarded rule starting at "
           "offset > 0 with more than N bytes remaining; inputs deeper than the limit.",
      assumptions=COMMON_ASSUME + ["unguarded PEGTL runs serve as reference for the guarded ones (the property is about the guard)"])
 
